@@ -1,14 +1,14 @@
 package main
 
 import (
-	"os"
-	"runtime/debug"
 	"context"
 	"database/sql"
 	"encoding/hex"
 	"encoding/json"
 	"errors"
 	"fmt"
+	"os"
+	"runtime/debug"
 	"strconv"
 	"sync"
 	"time"
@@ -85,61 +85,61 @@ type scope struct {
 	FreshCtx  bool   `json:"fresh_ctx"` // nested scope: new context carrying only the xid (remote-call style)
 	NoGtx     bool   `json:"no_gtx"`    // run the steps without tm.WithGlobalTx (outside any global transaction)
 	Steps     []step `json:"steps"`
-	Outcome   string `json:"outcome"` // nil | error | panic
-	Label     string `json:"label"`   // label for marks/observations
+	Outcome   string `json:"outcome"`   // nil | error | panic
+	Label     string `json:"label"`     // label for marks/observations
 	CancelAt  string `json:"cancel_at"` // "", before_begin, in_business
 	NilConfig bool   `json:"nil_config"`
 }
 
 type step struct {
-	Op    string  `json:"op"` // exec query begin commit rollback prepare stmt_exec stmt_close mark scope sleep cancel conn_pin conn_release tcc
-	DB    string  `json:"db,omitempty"`
-	SQL   string  `json:"sql,omitempty"`
-	Args  []tval  `json:"args,omitempty"`
-	What  string  `json:"what,omitempty"`
-	Scope *scope  `json:"scope,omitempty"`
-	Ms    int     `json:"ms,omitempty"`
-	Stmt  string  `json:"stmt,omitempty"` // prepared statement handle name
-	StopOnErr bool `json:"stop_on_err,omitempty"` // when this step fails, skip the remaining steps and return its error
-	Action string `json:"action,omitempty"`
-	Params json.RawMessage `json:"params,omitempty"`
-	Isolation int  `json:"isolation,omitempty"` // begin: sql.IsolationLevel
-	ReadOnly  bool `json:"read_only,omitempty"` // begin
+	Op        string          `json:"op"` // exec query begin commit rollback prepare stmt_exec stmt_close mark scope sleep cancel conn_pin conn_release tcc
+	DB        string          `json:"db,omitempty"`
+	SQL       string          `json:"sql,omitempty"`
+	Args      []tval          `json:"args,omitempty"`
+	What      string          `json:"what,omitempty"`
+	Scope     *scope          `json:"scope,omitempty"`
+	Ms        int             `json:"ms,omitempty"`
+	Stmt      string          `json:"stmt,omitempty"`        // prepared statement handle name
+	StopOnErr bool            `json:"stop_on_err,omitempty"` // when this step fails, skip the remaining steps and return its error
+	Action    string          `json:"action,omitempty"`
+	Params    json.RawMessage `json:"params,omitempty"`
+	Isolation int             `json:"isolation,omitempty"` // begin: sql.IsolationLevel
+	ReadOnly  bool            `json:"read_only,omitempty"` // begin
 }
 
 type stepResult struct {
-	Op       string   `json:"op"`
-	Err      string   `json:"err,omitempty"`
-	ErrNo    int      `json:"errno,omitempty"`
-	Panic    string   `json:"panic,omitempty"`
-	Affected int64    `json:"affected"`
-	LastID   int64    `json:"last_id"`
-	Cols     []string `json:"cols,omitempty"`
-	ColTypes []string `json:"col_types,omitempty"`
-	Rows     [][]tval `json:"rows,omitempty"`
+	Op       string       `json:"op"`
+	Err      string       `json:"err,omitempty"`
+	ErrNo    int          `json:"errno,omitempty"`
+	Panic    string       `json:"panic,omitempty"`
+	Affected int64        `json:"affected"`
+	LastID   int64        `json:"last_id"`
+	Cols     []string     `json:"cols,omitempty"`
+	ColTypes []string     `json:"col_types,omitempty"`
+	Rows     [][]tval     `json:"rows,omitempty"`
 	Scope    *scopeResult `json:"scope,omitempty"`
-	Skipped  bool     `json:"skipped,omitempty"`
+	Skipped  bool         `json:"skipped,omitempty"`
 }
 
 type ctxObs struct {
-	Xid    string `json:"xid"`
-	Role   string `json:"role"`
-	Name   string `json:"name"`
-	IsGtx  bool   `json:"is_gtx"`
-	Seata  bool   `json:"seata"`
+	Xid   string `json:"xid"`
+	Role  string `json:"role"`
+	Name  string `json:"name"`
+	IsGtx bool   `json:"is_gtx"`
+	Seata bool   `json:"seata"`
 }
 
 type scopeResult struct {
-	Label    string       `json:"label"`
-	Returned string       `json:"returned"` // nil | error | panic
-	Err      string       `json:"err,omitempty"`
-	PanicVal string       `json:"panic_val,omitempty"`
-	Entered  bool         `json:"entered"` // business callback ran
-	XidIn    string       `json:"xid_in"`  // xid seen inside the callback
-	CtxIn    ctxObs       `json:"ctx_in"`
-	CtxBefore ctxObs      `json:"ctx_before"`
-	CtxAfter ctxObs       `json:"ctx_after"` // context of the caller after the scope returned
-	Steps    []stepResult `json:"steps"`
+	Label     string       `json:"label"`
+	Returned  string       `json:"returned"` // nil | error | panic
+	Err       string       `json:"err,omitempty"`
+	PanicVal  string       `json:"panic_val,omitempty"`
+	Entered   bool         `json:"entered"` // business callback ran
+	XidIn     string       `json:"xid_in"`  // xid seen inside the callback
+	CtxIn     ctxObs       `json:"ctx_in"`
+	CtxBefore ctxObs       `json:"ctx_before"`
+	CtxAfter  ctxObs       `json:"ctx_after"` // context of the caller after the scope returned
+	Steps     []stepResult `json:"steps"`
 }
 
 func observe(ctx context.Context) ctxObs {
